@@ -397,10 +397,10 @@ func (g *grammarCtx) emit(in ssa.Instruction, chain map[ssa.Value]bool) ([]jtok,
 		return nil, false
 	}
 	if i, ok := g.fam[sc]; ok && i < len(cc.Args) && chain[cc.Args[i]] {
-		if sc.Name() == "appendJSONExtra" {
-			return []jtok{tMembers}, true
+		if isPublicWriter(sc) {
+			return []jtok{tValue}, true
 		}
-		return []jtok{tValue}, true
+		return nil, false // a helper: analysed in the caller's state
 	}
 	if n := sc.String(); (n == "strconv.AppendFloat" || n == "strconv.AppendInt") && len(cc.Args) > 0 && chain[cc.Args[0]] {
 		return []jtok{tVal}, true
@@ -465,138 +465,219 @@ func baseLoad(v ssa.Value) (string, bool) {
 	return st.Field(fa.Field).Name(), true
 }
 
-func (p *Program) ruleJSONGrammar(c *Check) {
-	fam := p.appendFamily()
-	var fns []*ssa.Function
-	for fn := range fam {
-		fns = append(fns, fn)
+// gAnalysis memoises, per writer and entry state, the set of JSON states in
+// which the writer can return.  Public writers (AppendJSON methods) are
+// summarised by their contract (one complete value); helpers are analysed in
+// the state of each call site.
+type gAnalysis struct {
+	p     *Program
+	fam   map[*ssa.Function]int
+	memo  map[string]map[jstate]bool
+	busy  map[string]bool
+	errs  map[*ssa.Function]map[string]token.Pos
+	count int
+}
+
+func isPublicWriter(fn *ssa.Function) bool {
+	return fn.Name() == "AppendJSON" && fn.Signature.Recv() != nil
+}
+
+func (ga *gAnalysis) fail(fn *ssa.Function, pos token.Pos, msg string) {
+	if ga.errs[fn] == nil {
+		ga.errs[fn] = map[string]token.Pos{}
 	}
-	sort.Slice(fns, func(i, j int) bool { return SSAName(fns[i]) < SSAName(fns[j]) })
-	for _, fn := range fns {
-		g := &grammarCtx{p: p, fn: fn, fam: fam, counters: counterPhis(fn), dst: fn.Params[fam[fn]], errs: map[string]token.Pos{}}
-		// chain values (as in E5.append)
-		chain := map[ssa.Value]bool{g.dst: true}
-		for changed := true; changed; {
-			changed = false
-			for _, b := range fn.Blocks {
-				for _, in := range b.Instrs {
-					switch x := in.(type) {
-					case *ssa.Call:
-						if _, ok := g.emit(x, chain); ok {
-							if _, isT := x.Type().(*types.Tuple); isT {
-								for _, r := range *x.Referrers() {
-									if ex, ok := r.(*ssa.Extract); ok && ex.Index == 0 && !chain[ex] {
-										chain[ex], changed = true, true
-									}
+	if _, ok := ga.errs[fn][msg]; !ok {
+		ga.errs[fn][msg] = pos
+	}
+}
+
+func (ga *gAnalysis) chainOf(fn *ssa.Function, g *grammarCtx) map[ssa.Value]bool {
+	chain := map[ssa.Value]bool{g.dst: true}
+	for changed := true; changed; {
+		changed = false
+		for _, b := range fn.Blocks {
+			for _, in := range b.Instrs {
+				switch x := in.(type) {
+				case *ssa.Call:
+					if _, ok := g.emit(x, chain); ok || g.helperCall(x, chain) != nil {
+						if _, isT := x.Type().(*types.Tuple); isT {
+							for _, r := range *x.Referrers() {
+								if ex, ok := r.(*ssa.Extract); ok && ex.Index == 0 && !chain[ex] {
+									chain[ex], changed = true, true
 								}
-							} else if !chain[x] {
-								chain[x], changed = true, true
 							}
+						} else if !chain[x] {
+							chain[x], changed = true, true
 						}
-					case *ssa.Phi:
-						for _, e := range x.Edges {
-							if chain[e] && !chain[x] {
-								chain[x], changed = true, true
-							}
+					}
+				case *ssa.Phi:
+					for _, e := range x.Edges {
+						if chain[e] && !chain[x] {
+							chain[x], changed = true, true
 						}
 					}
 				}
 			}
 		}
-		start := jstate{"", 'V'}
-		want := jstate{"", 'A'}
-		contract := "one complete JSON value"
-		if fn.Name() == "appendJSONExtra" {
-			start, want = jstate{"{", 'A'}, jstate{"{", 'A'}
-			contract = "zero or more \",key:value\" members inside an object"
+	}
+	return chain
+}
+
+// helperCall: a static call of a non-public writer of the family with the chain as dst.
+func (g *grammarCtx) helperCall(cl *ssa.Call, chain map[ssa.Value]bool) *ssa.Function {
+	sc := cl.Call.StaticCallee()
+	if sc == nil || isPublicWriter(sc) {
+		return nil
+	}
+	if i, ok := g.fam[sc]; ok && i < len(cl.Call.Args) && chain[cl.Call.Args[i]] {
+		return sc
+	}
+	return nil
+}
+
+func (ga *gAnalysis) analyze(fn *ssa.Function, start jstate) map[jstate]bool {
+	key := SSAName(fn) + "|" + start.String()
+	if r, ok := ga.memo[key]; ok {
+		return r
+	}
+	if ga.busy[key] {
+		return map[jstate]bool{}
+	}
+	ga.busy[key] = true
+	defer delete(ga.busy, key)
+	g := &grammarCtx{p: ga.p, fn: fn, fam: ga.fam, counters: counterPhis(fn), dst: fn.Params[ga.fam[fn]], errs: map[string]token.Pos{}}
+	chain := ga.chainOf(fn, g)
+	outs := map[jstate]bool{}
+	type item struct {
+		b   *ssa.BasicBlock
+		idx int
+		s   gstate
+	}
+	seen := map[string]bool{}
+	var work []item
+	push := func(b *ssa.BasicBlock, idx int, s gstate) {
+		k := fmt.Sprintf("%d/%d/%s/%s", b.Index, idx, s.js, s.flags)
+		if !seen[k] {
+			seen[k] = true
+			work = append(work, item{b, idx, s})
 		}
-		// worklist over (block, state)
-		in := map[*ssa.BasicBlock]map[gstate]bool{}
-		type item struct {
-			b *ssa.BasicBlock
-			s gstate
-		}
-		var work []item
-		push := func(b *ssa.BasicBlock, s gstate) {
-			if in[b] == nil {
-				in[b] = map[gstate]bool{}
-			}
-			if !in[b][s] {
-				in[b][s] = true
-				work = append(work, item{b, s})
-			}
-		}
-		push(fn.Blocks[0], gstate{start, ""})
-		steps := 0
-		for len(work) > 0 && steps < 20000 {
-			steps++
-			it := work[len(work)-1]
-			work = work[:len(work)-1]
-			cur := it.s
-			dead := false
-			for _, ins := range it.b.Instrs {
-				toks, ok := g.emit(ins, chain)
-				if !ok {
-					continue
-				}
-				for _, t := range toks {
-					ns, msg := jstep(cur.js, t)
-					if msg != "" {
-						g.fail(ins.Pos(), msg+" (the output is not well-formed JSON on this path)")
-						dead = true
-						break
+	}
+	push(fn.Blocks[0], 0, gstate{start, ""})
+	for steps := 0; len(work) > 0 && steps < 50000; steps++ {
+		it := work[len(work)-1]
+		work = work[:len(work)-1]
+		ga.count++
+		cur := it.s
+		dead := false
+		for i := it.idx; i < len(it.b.Instrs) && !dead; i++ {
+			ins := it.b.Instrs[i]
+			if cl, ok := ins.(*ssa.Call); ok {
+				if h := g.helperCall(cl, chain); h != nil {
+					res := ga.analyze(h, cur.js)
+					for o := range res {
+						push(it.b, i+1, gstate{o, cur.flags})
 					}
-					cur.js = ns
-				}
-				if dead {
+					dead = true
 					break
 				}
 			}
-			if dead {
+			toks, ok := g.emit(ins, chain)
+			if !ok {
 				continue
 			}
-			last := it.b.Instrs[len(it.b.Instrs)-1]
-			switch x := last.(type) {
-			case *ssa.Return:
-				if cur.js != want {
-					g.fail(x.Pos(), fmt.Sprintf("a path returns in state %s: the bytes written are not %s", cur.js, contract))
+			for _, t := range toks {
+				ns, msg := jstep(cur.js, t)
+				if msg != "" {
+					ga.fail(fn, ins.Pos(), msg+" (the output is not well-formed JSON on this path)")
+					dead = true
+					break
 				}
-			case *ssa.If:
-				d := g.decide(x.Cond, cur.flags)
-				for si, succ := range it.b.Succs {
-					if (d == 1 && si == 1) || (d == 0 && si == 0) {
-						continue
-					}
-					push(succ, g.enter(it.b, succ, cur))
-				}
-			default:
-				for _, succ := range it.b.Succs {
-					push(succ, g.enter(it.b, succ, cur))
-				}
+				cur.js = ns
 			}
 		}
+		for m, pos := range g.errs {
+			ga.fail(fn, pos, m)
+		}
+		if dead {
+			continue
+		}
+		last := it.b.Instrs[len(it.b.Instrs)-1]
+		switch x := last.(type) {
+		case *ssa.Return:
+			outs[cur.js] = true
+		case *ssa.If:
+			d := g.decide(x.Cond, cur.flags)
+			for si, succ := range it.b.Succs {
+				if (d == 1 && si == 1) || (d == 0 && si == 0) {
+					continue
+				}
+				push(succ, 0, g.enter(it.b, succ, cur))
+			}
+		default:
+			for _, succ := range it.b.Succs {
+				push(succ, 0, g.enter(it.b, succ, cur))
+			}
+		}
+	}
+	ga.memo[key] = outs
+	return outs
+}
+
+func (p *Program) ruleJSONGrammar(c *Check) {
+	fam := p.appendFamily()
+	ga := &gAnalysis{p: p, fam: fam, memo: map[string]map[jstate]bool{}, busy: map[string]bool{}, errs: map[*ssa.Function]map[string]token.Pos{}}
+	var roots []*ssa.Function
+	for fn := range fam {
+		if isPublicWriter(fn) {
+			roots = append(roots, fn)
+		}
+	}
+	sort.Slice(roots, func(i, j int) bool { return SSAName(roots[i]) < SSAName(roots[j]) })
+	want := jstate{"", 'A'}
+	for _, fn := range roots {
+		before := ga.count
+		outs := ga.analyze(fn, jstate{"", 'V'})
 		pos := ""
 		if o, ok := fn.Object().(*types.Func); ok {
 			pos = p.declPos(o)
 		}
 		name := SSAName(fn)
-		if len(g.errs) == 0 {
-			n := 0
-			for _, m := range in {
-				n += len(m)
+		var msgs []string
+		var firstPos token.Pos
+		// errors of this writer and of the helpers it reaches are reported on the writer
+		for f, m := range ga.errs {
+			if f == fn || !isPublicWriter(f) {
+				for msg, ps := range m {
+					msgs = append(msgs, SSAName(f)+": "+msg)
+					if firstPos == token.NoPos {
+						firstPos = ps
+					}
+				}
 			}
-			c.OK("E5.json", name, pos, fmt.Sprintf("writes %s on every path (%d abstract states explored)", contract, n))
+		}
+		for o := range outs {
+			if o != want {
+				msgs = append(msgs, fmt.Sprintf("%s: a path returns in state %s: the bytes written are not one complete JSON value", name, o))
+			}
+		}
+		if len(outs) == 0 && len(msgs) == 0 {
+			msgs = append(msgs, name+": no path reaches a return")
+		}
+		if len(msgs) == 0 {
+			c.OK("E5.json", name, pos, fmt.Sprintf("writes one complete JSON value on every path (helpers analysed in the state of their call sites; %d abstract steps)", ga.count-before))
 		} else {
-			var msgs []string
-			for m := range g.errs {
-				msgs = append(msgs, m)
-			}
 			sort.Strings(msgs)
-			o := c.Bad("E5.json", name, p.Pos(g.errs[msgs[0]]), msgs[0])
+			o := c.Bad("E5.json", name, p.Pos(firstPos), msgs[0])
 			o.Path = msgs
+			// helper errors are charged once
+			for f := range ga.errs {
+				if !isPublicWriter(f) {
+					delete(ga.errs, f)
+				}
+			}
 		}
 	}
-	c.Floor("E5.json", len(fns), 15, "append-style writers")
+	c.Floor("E5.json", len(roots), 12, "public JSON writers")
 }
 
 // enter: flags of loop counters when control moves from pred to succ.
